@@ -7,6 +7,7 @@ import (
 	"errors"
 	"fmt"
 	"io"
+	"math"
 	"net"
 	"os"
 	"os/signal"
@@ -61,10 +62,15 @@ type CanAcceptFunc func() bool
 
 // SendFailure lets the client know that executing the command failed and the error
 func SendFailure(t *tubes.Reliable, err error) {
-	msg := make([]byte, 5+len(err.Error()))
+	// The length prefix is two bytes: a longer message is cut, not mis-framed.
+	text := err.Error()
+	if len(text) > math.MaxUint16 {
+		text = text[:math.MaxUint16]
+	}
+	msg := make([]byte, 5+len(text))
 	msg[0] = execFail
-	binary.BigEndian.PutUint16(msg[1:], uint16(len(err.Error())))
-	copy(msg[5:], []byte(err.Error()))
+	binary.BigEndian.PutUint16(msg[1:], uint16(len(text)))
+	copy(msg[5:], []byte(text))
 	t.Write(msg)
 }
 
